@@ -3,6 +3,7 @@ package c07
 import (
 	"encoding/json"
 	"fmt"
+	"runtime"
 	"sync"
 	"sync/atomic"
 	"testing"
@@ -54,9 +55,7 @@ func runTakers(c takersCase) (key, msg string, nontrivial bool) {
 	q := fpgo.NewBufferedChannelQueue[int](c.ChanCap, 10000, 100).SetLoadFromPoolDuration(20 * time.Microsecond)
 	defer q.Close()
 	k := len(c.Takes)
-	var arrived int32
-	release := make(chan struct{})
-	var once sync.Once
+	var arrived, released int32
 	fpgo.SetVerifHook(func(point string, obj any) {
 		if obj != any(q) || (point != "bcq.take.afterClosedCheck" && point != "bcq.takeWithTimeout.afterClosedCheck") {
 			return
@@ -66,12 +65,15 @@ func runTakers(c takersCase) (key, msg string, nontrivial bool) {
 			return
 		}
 		if int(n) == k {
-			once.Do(func() { close(release) })
+			atomic.StoreInt32(&released, 1)
 			return
 		}
-		select {
-		case <-release:
-		case <-time.After(5 * time.Millisecond):
+		// spin (not park): the consumers must leave this point within nanoseconds of each other - what is
+		// being probed lies between here and the channel receive, a few instructions further on
+		for t0 := time.Now(); atomic.LoadInt32(&released) == 0 && time.Since(t0) < 5*time.Millisecond; {
+			if fewProcs {
+				runtime.Gosched()
+			}
 		}
 	})
 	defer fpgo.SetVerifHook(nil)
